@@ -142,6 +142,15 @@ def c08_2(R):
                "which later removes whatever stream is registered under that key (the next accepted connection is unwired)", where=sd.where(), instance="vsock-guard-disarm-sites")
     else:
         R.floor("disarm of VirtualSocket.drop_guard", n, 1)
+    ms = R.body(DISP + "::match_syn_with_accept")
+    mrem = [x for x in ms.calls() if call_on_field(ms, x, ("HashMap::remove",), "Dispatcher.streams")]
+    dis = {x.bb for x in ms.calls() if call_matches(x, ("stream_dispatch::UtpStreamStarter::disarm",))}
+    R.floor("manual streams.remove in match_syn_with_accept", len(mrem), 1)
+    for x in mrem:
+        if dis and must_pass_blocks(ms, [x.bb], dis)[0]:
+            R.ok("manual-remove=>disarmed", ms.name, "the starter is disarmed on every path to the manual removal")
+        else:
+            R.fail([ms.name, "streams.remove-without(starter.disarm)"], "the inserted key is removed by hand without disarming the starter: when the starter is dropped its guard posts Shutdown(recv_key) and removes the NEXT connection registered under that key", where=x.where(), instance="manual-remove=>disarmed")
     for b, t in census_calls(R, F, ("stream_dispatch::UtpStreamStarter::disarm",)):
         fn = owner_fn(b)
         if fn != DISP + "::match_syn_with_accept":
